@@ -1,23 +1,35 @@
 """Translator for C12: the tables the match-rule code depends on.
 
-  router._mtypes                       (runtime object)           -> Gen.Route.mtypes
-  router.Rule.add                      tuple of "simple" keys     -> Gen.Route.simpleKeys      (AST)
-  router.MessageRouter.addMatch        (parameter, key) pairs of the `if p: r.add('key', v)` chain, in order,
-                                       and how the value of the message-type constraint is computed
-                                                                  -> Gen.Route.addKeys, Gen.Route.mtypeLookup (AST)
-  client.DBusClientConnection.addMatch (text key, variable) pairs          -> Gen.Route.clientTextKeys     (AST)
-  objects.RemoteDBusObject.notifyOnSignal  keywords of its addMatch call    -> Gen.Route.notifyKwargs       (AST)
-  bus.Bus.dbus_AddMatch                the keys of the kwargs literal       -> Gen.Route.busKwargKeys       (AST)
+Every table is derived by PROBING the code of the tree under test over the table's whole (finite) domain;
+where the source still has the shape a syntactic recogniser knows, the recogniser's reading is cross-checked
+against the probe (disagreement = translator error).  An unknown shape is not an error: the probe is the
+translator, and a sentence goes to ADVISORIES (the pipeline then widens the correspondence run).
 
-Anything outside the restricted shapes recognised here is a translator failure (a broken obligation).
+  Gen.Route.mtypes          message type name -> code the type constraint is compared with
+                            probe: a rule `mtype=<name>` against messages of every type code (cross-check: router._mtypes)
+  Gen.Route.addKeys         for every parameter of MessageRouter.addMatch: the message attribute it is compared with,
+  Gen.Route.simpleKeys      or `path_namespace` / `args` / `arg_paths` (evaluated as such), or its own name (not
+  Gen.Route.mtypeLookup     evaluated).  probe: a rule with that parameter alone against duck-typed messages that
+                            differ in one attribute (cross-check: the `if p: r.add('key', v)` chain + tuple of Rule.add)
+  (id allocation)           probe: ids returned by addMatch over a history with removals are 0,1,2,... never reissued
+                            (what the model does); anything else is a translator error
+  Gen.Route.clientTextKeys  for every parameter of DBusClientConnection.addMatch: the key it is written under
+  Gen.Route.clientEscapes   probe: the real addMatch with callRemote stubbed; item format k='v', comma separator,
+                            None omitted, apostrophe written as '\''
+  Gen.Route.busKwargKeys    rule-text keys that Bus.dbus_AddMatch hands to the router as they are
+                            probe: dbus_AddMatch("<k>='v'") for every parameter name of MessageRouter.addMatch
+  Gen.Route.notifyKwargs    what RemoteDBusObject.notifyOnSignal passes to addMatch
+                            probe: a proxy on a recording connection, distinctive path / signal / interface names
 """
 import ast
 import inspect
 import textwrap
 
 MODULE = 'TxdbusModel.Gen.Route'
+ADVISORIES = []
 
 
+# ----------------------------------------------------------------------------------------------- Lean output
 def lstr(s):
     """A Python str as a Lean `List Char` literal (explicit characters: reduces in the kernel)."""
     assert isinstance(s, str)
@@ -36,12 +48,6 @@ def llist(items):
     return '[' + ', '.join(items) + ']'
 
 
-def fn_ast(obj):
-    src = textwrap.dedent(inspect.getsource(obj))
-    mod = ast.parse(src)
-    return mod.body[0]
-
-
 CANON_PARAMS = ['mtype', 'sender', 'interface', 'member', 'path', 'destination', 'path_namespace', 'args',
                 'arg_paths', 'arg0namespace']
 CANON_SIMPLE = ['_messageType', 'mtype', 'sender', 'interface', 'member', 'path', 'destination']
@@ -49,27 +55,312 @@ CANON_BUS = ['mtype', 'sender', 'interface', 'member', 'path', 'path_namespace',
              'arg0namespace']
 CANON_TEXT = ['type', 'sender', 'interface', 'member', 'path', 'path_namespace', 'destination', 'arg%d', 'arg%dpath',
               'arg0namespace']
+CANON_NOTIFY = ['mtype', 'interface', 'member', 'path']
 
 
 def canon_sorted(items, order, key=lambda x: x):
-    """Sort by position in `order` (unknown entries last, alphabetically).  The order of the `if` chain in
-    addMatch and of the `add(...)` calls in the client is not observable through the property (a rule is
-    a conjunction; the order of the items of a rule text carries no meaning), so the table is emitted in a
-    canonical order and a mere reordering in the source changes nothing here."""
+    """Sort by position in `order` (unknown entries last, alphabetically): the order of the `if` chain in
+    addMatch / of the `add(...)` calls in the client is not observable through the property."""
     return sorted(items, key=lambda x: (order.index(key(x)) if key(x) in order else len(order), key(x)))
 
 
-def _stmts(nodes):
-    return [ast.unparse(n) for n in nodes]
+# ----------------------------------------------------------------------------------------------- probing: router
+class _Msg:
+    """Duck-typed message: Rule.match only reads attributes."""
+    def __init__(self, **kw):
+        self.__dict__.update(kw)
 
 
-def simple_keys(router):
+_BASE = dict(_messageType=4, interface='i.f', member='Mem', path='/p/q', destination=':1.9', sender=':1.8',
+             body=['b0', '/b/1'], signature='ss')
+_ATTRS = ['interface', 'member', 'path', 'destination', 'sender']
+
+
+class _Quiet:
+    def err(self, *a, **k):
+        pass
+
+    def msg(self, *a, **k):
+        pass
+
+
+def _delivered(router_mod, kwargs, **attrs):
+    """Does a fresh MessageRouter hand a message with these attributes to the callback of the rule `kwargs`?"""
+    saved = router_mod.log
+    router_mod.log = _Quiet()
+    try:
+        r = router_mod.MessageRouter()
+        hits = []
+        r.addMatch(hits.append, **kwargs)
+        d = dict(_BASE)
+        d.update(attrs)
+        r.routeMessage(_Msg(**d))
+        return len(hits) == 1
+    finally:
+        router_mod.log = saved
+
+
+def _router_params(router_mod):
+    ps = list(inspect.signature(router_mod.MessageRouter.addMatch).parameters)
+    return [p for p in ps if p not in ('self', 'callback')]
+
+
+def probe_router(router_mod):
+    """-> (addKeys [(param, key)], simpleKeys, mtypeLookup, mtypes [(name, code)])"""
+    D = lambda kw, **a: _delivered(router_mod, kw, **a)
+    pairs, simple = [], []
+    lookup = None
+    mtypes = []
+    PV = 'Pv.probe'
+    for p in _router_params(router_mod):
+        kind = None
+        # --- compared with the message type?
+        try:
+            by_code = D({p: 'signal'}, _messageType=4) and not D({p: 'signal'}, _messageType=3) \
+                and not D({p: 'signal'}, _messageType='signal')
+            by_name = D({p: 'signal'}, _messageType='signal') and not D({p: 'signal'}, _messageType=4) \
+                and not D({p: 'signal'}, _messageType='error')
+        except Exception:
+            by_code = by_name = False
+        if by_code or by_name:
+            kind = '_messageType'
+            simple.append(kind)
+            lookup = bool(by_code)
+            if by_code:
+                for name in ('method_call', 'method_return', 'error', 'signal'):
+                    codes = [c for c in range(0, 9) if D({p: name}, _messageType=c)]
+                    if len(codes) != 1:
+                        raise ValueError('probe: type name %r is compared with the codes %r' % (name, codes))
+                    mtypes.append((name, codes[0]))
+                if any(D({p: 'no_such_type'}, _messageType=c) for c in range(0, 9)):
+                    raise ValueError('probe: an unknown type name matches a message')
+        # --- compared with one string attribute of the message?
+        if kind is None:
+            try:
+                hits = [x for x in _ATTRS if D({p: PV}, **{x: PV}) and not D({p: PV})
+                        and not D({p: PV}, **{y: PV for y in _ATTRS if y != x})]
+            except Exception:
+                hits = []
+            if len(hits) == 1:
+                kind = hits[0]
+                simple.append(kind)
+            elif len(hits) > 1:
+                raise ValueError('probe: parameter %r is compared with several attributes: %r' % (p, hits))
+        # --- a path namespace?
+        if kind is None:
+            try:
+                if D({p: '/p'}, path='/p/q') and D({p: '/p'}, path='/p') and not D({p: '/p'}, path='/pq') \
+                        and not D({p: '/p'}, path='/x') and not D({p: '/p'}, path=None):
+                    kind = 'path_namespace'
+            except Exception:
+                pass
+        # --- argument constraints (a list of (index, value) pairs)?
+        if kind is None:
+            try:
+                exact = D({p: [(0, 'b0')]}, body=['b0']) and not D({p: [(0, 'b0')]}, body=['b0x']) \
+                    and not D({p: [(0, 'b0')]}, body=None) and not D({p: [(1, 'b0')]}, body=['b0'])
+                if exact:
+                    kind = 'arg_paths' if D({p: [(0, '/b/')]}, body=['/b/1']) else 'args'
+            except Exception:
+                pass
+        # --- not evaluated at all?
+        if kind is None:
+            try:
+                ignored = D({p: PV}) and D({p: '/zz'}, path='/p/q') and D({p: PV}, body=None)
+            except Exception:
+                ignored = False
+            if not ignored:
+                raise ValueError('probe: cannot classify the parameter %r of MessageRouter.addMatch' % (p,))
+            kind = p
+        pairs.append((p, kind))
+    if lookup is None:
+        # no parameter is compared with the message type (the tree before C12-01): the model needs a value
+        # for the mode; `False` = "the value is stored as given" is what an unevaluated constraint amounts to
+        lookup = False
+    if not mtypes:
+        mt = getattr(router_mod, '_mtypes', None)
+        if isinstance(mt, dict):
+            mtypes = sorted(mt.items(), key=lambda kv: (kv[1], kv[0]))
+        else:
+            raise ValueError('probe: no type constraint is evaluated and router._mtypes does not exist')
+    return (canon_sorted(pairs, CANON_PARAMS, key=lambda x: x[0]), canon_sorted(sorted(set(simple)), CANON_SIMPLE),
+            lookup, sorted(mtypes, key=lambda kv: (kv[1], kv[0])))
+
+
+def probe_ids(router_mod):
+    """The model allocates 0, 1, 2, ... and never reissues an id; confirm on the real router."""
+    r = router_mod.MessageRouter()
+    cb = lambda m: None
+    got = [r.addMatch(cb), r.addMatch(cb, member='x'), r.addMatch(cb)]
+    r.delMatch(got[1])
+    got.append(r.addMatch(cb))
+    for i in list(got):
+        if i != got[1]:
+            r.delMatch(i)
+    got.append(r.addMatch(cb))
+    got.append(r.addMatch(cb))
+    if got != [0, 1, 2, 3, 4, 5]:
+        raise ValueError('probe: MessageRouter.addMatch hands out the ids %r over add,add,add,del,add,del*,add,add; '
+                         'the model hands out 0..5' % (got,))
+    try:
+        r.delMatch(got[1])
+    except KeyError:
+        return
+    raise ValueError('probe: delMatch of a removed id does not raise KeyError (the model does)')
+
+
+# ----------------------------------------------------------------------------------------------- probing: client
+def probe_client(client_mod):
+    """-> ([(text key, parameter)], escapes)"""
+    from twisted.internet import defer
+    c = object.__new__(client_mod.DBusClientConnection)
+    sent = []
+
+    def call_remote(path, member, **kw):
+        sent.append((member, kw.get('body')))
+        return defer.Deferred()
+    c.callRemote = call_remote
+
+    def text(**kw):
+        del sent[:]
+        c.addMatch(lambda m: None, **kw)
+        if len(sent) != 1 or sent[0][0] != 'AddMatch' or len(sent[0][1]) != 1:
+            raise ValueError('probe: client.addMatch(%r) did not issue one AddMatch(text): %r' % (kw, sent))
+        return sent[0][1][0]
+    params = [p for p in inspect.signature(client_mod.DBusClientConnection.addMatch).parameters
+              if p not in ('self', 'callback')]
+    if text() != '':
+        raise ValueError('probe: the rule without constraints is not the empty text')
+    pairs = []
+    for p in params:
+        t = None
+        try:
+            t = text(**{p: 'Vv'})
+            if t.endswith("='Vv'") and "'" not in t[:-5] and ',' not in t:
+                pairs.append((t[:-5], p))
+                continue
+        except Exception:
+            pass
+        try:
+            t = text(**{p: [(7, 'Vv'), (12, 'Ww')]})
+        except Exception as e:
+            raise ValueError('probe: client parameter %r accepts neither a string nor (index, value) pairs: %r' % (p, e))
+        a, _, b = t.partition(',')
+        if not (a.endswith("='Vv'") and b.endswith("='Ww'") and a[:-5].replace('7', '%d', 1) == b[:-5].replace('12', '%d', 1)
+                and '7' in a[:-5]):
+            raise ValueError('probe: unexpected text for %s=[(7, ..), (12, ..)]: %r' % (p, t))
+        pairs.append((a[:-5].replace('7', '%d', 1), p))
+        if text(**{p: []}) != '':
+            raise ValueError('probe: an empty %s list is written into the text' % p)
+    # separator, order-free: two parameters
+    if len(pairs) >= 2:
+        k1, p1 = pairs[0]
+        k2, p2 = next((k, p) for k, p in pairs if '%d' not in k and p != p1)
+        t = text(**{p1: 'A', p2: 'B'})
+        if sorted(t.split(',')) != sorted(["%s='A'" % k1, "%s='B'" % k2]):
+            raise ValueError('probe: two constraints are not written as two comma-separated items: %r' % (t,))
+    # escaping
+    k1, p1 = next((k, p) for k, p in pairs if '%d' not in k)
+    t = text(**{p1: "a'b'"})
+    if t == "%s='a'\\''b'\\'''" % k1:
+        esc = True
+    elif t == "%s='a'b''" % k1:
+        esc = False
+    else:
+        raise ValueError('probe: a value with apostrophes is written in an unsupported way: %r' % (t,))
+    if text(**{p1: 'x,=\\y'}) != "%s='x,=\\y'" % k1:
+        raise ValueError('probe: comma / equals / backslash inside a value are rewritten')
+    return canon_sorted(pairs, CANON_TEXT, key=lambda x: x[0]), esc
+
+
+# ----------------------------------------------------------------------------------------------- probing: bus
+def probe_bus(bus_mod, router_mod):
+    """Keys of the rule text that dbus_AddMatch passes on under their own name (after type -> mtype)."""
+    class Peer:
+        uniqueName = ':1.1'
+
+        def __init__(self):
+            self.matchRules = set()
+            self.busNames = {}
+
+        def sendMessage(self, m):
+            pass
+    keys = []
+    for k in _router_params(router_mod):
+        b = bus_mod.Bus()
+        peer = Peer()
+        b.clients[peer.uniqueName] = peer
+        seen = []
+        real = b.router.addMatch
+
+        def spy(cb, **kw):
+            seen.append(kw)
+            return real(cb)
+        b.router.addMatch = spy
+        try:
+            b.dbus_AddMatch("%s='v'" % k, dbusCaller=':1.1')
+        except Exception:
+            continue
+        if seen and seen[0].get(k) == 'v':
+            keys.append(k)
+    # `type` is the spelling of mtype in a rule text
+    b = bus_mod.Bus()
+    peer = Peer()
+    b.clients[peer.uniqueName] = peer
+    seen = []
+    b.router.addMatch = lambda cb, **kw: seen.append(kw) or 0
+    b.dbus_AddMatch("type='v'", dbusCaller=':1.1')
+    if not seen or seen[0].get('mtype') != 'v':
+        raise ValueError("probe: dbus_AddMatch does not pass type='v' on as mtype")
+    return canon_sorted(keys, CANON_BUS)
+
+
+# ----------------------------------------------------------------------------------------------- probing: proxy
+def probe_notify(objects_mod, interface_mod):
+    class Conn:
+        def __init__(self):
+            self.calls = []
+
+        def addMatch(self, cb, **kw):
+            from twisted.internet import defer
+            self.calls.append(kw)
+            return defer.Deferred()
+
+    class Handler:
+        pass
+    h = Handler()
+    h.conn = Conn()
+    iface = interface_mod.DBusInterface('probe.Iface', interface_mod.Signal('ProbeSig', 's'))
+    ro = objects_mod.RemoteDBusObject(h, 'probe.bus', '/probe/obj', [iface])
+    ro.notifyOnSignal('ProbeSig', lambda *a: None)
+    if len(h.conn.calls) != 1:
+        raise ValueError('probe: notifyOnSignal did not call addMatch once')
+    roles = {'signal': "'signal'", '/probe/obj': 'objectPath', 'ProbeSig': 'signalName', 'probe.Iface': 'interfaceName',
+             'probe.bus': 'busName'}
+    out = []
+    for k, v in h.conn.calls[0].items():
+        if v is None:
+            continue
+        if v not in roles:
+            raise ValueError('probe: notifyOnSignal passes %s=%r to addMatch' % (k, v))
+        out.append((k, roles[v]))
+    return canon_sorted(out, CANON_NOTIFY, key=lambda x: x[0])
+
+
+# ----------------------------------------------------------------------------------------------- recognisers (cross-check)
+def fn_ast(obj):
+    src = textwrap.dedent(inspect.getsource(obj))
+    return ast.parse(src).body[0]
+
+
+def recognise_router(router):
+    """The shape `if key in (<literals>)` in Rule.add and `if p: r.add('key', value)` in addMatch.
+    -> (addKeys, simpleKeys, lookup) or raises ValueError('unrecognised ...')."""
     f = fn_ast(router.Rule.add)
     found = []
     for node in ast.walk(f):
         if isinstance(node, ast.If) and isinstance(node.test, ast.Compare) and len(node.test.ops) == 1 \
                 and isinstance(node.test.ops[0], ast.In) and isinstance(node.test.left, ast.Name):
-            keyvar = node.test.left.id
             tup = node.test.comparators[0]
             if not isinstance(tup, (ast.Tuple, ast.List, ast.Set)):
                 raise ValueError('Rule.add: `key in <non-literal>`')
@@ -78,27 +369,11 @@ def simple_keys(router):
                 if not (isinstance(e, ast.Constant) and isinstance(e.value, str)):
                     raise ValueError('Rule.add: non-string key in the tuple')
                 keys.append(e.value)
-            # semantic shape: the `in` branch appends (key, value) to self.simple, the other branch sets the
-            # attribute; extra statements (logging, comments) do not matter
-            params = [a.arg for a in f.args.args]
-            valvar = params[2] if len(params) > 2 else 'value'
-            body = _stmts(node.body)
-            orelse = _stmts(node.orelse)
-            if 'self.simple.append((%s, %s))' % (keyvar, valvar) not in body:
-                raise ValueError('Rule.add: the simple branch does not append (key, value): %r' % (body,))
-            if 'setattr(self, %s, %s)' % (keyvar, valvar) not in orelse:
-                raise ValueError('Rule.add: the other branch does not setattr(self, key, value): %r' % (orelse,))
             found.append(keys)
     if len(found) != 1:
         raise ValueError('Rule.add: expected exactly one `if key in (...)`, found %d' % len(found))
-    return canon_sorted(found[0], CANON_SIMPLE)          # membership test: order is irrelevant
-
-
-def add_keys(router):
-    """[(param, key)] in canonical order, mtype lookup mode ('raw' | 'get')."""
     f = fn_ast(router.MessageRouter.addMatch)
-    pairs = []
-    lookup = None
+    pairs, lookup = [], None
     for node in f.body:
         if not isinstance(node, ast.If):
             continue
@@ -114,105 +389,33 @@ def add_keys(router):
         key = call.value.args[0].value
         val = ast.unparse(call.value.args[1])
         if val == p:
-            mode = 'raw'
+            mode = False
         elif val == '_mtypes.get(%s, %s)' % (p, p):
-            mode = 'get'
+            mode = True
         else:
             raise ValueError('addMatch: value of %r is computed in an unsupported way: %s' % (key, val))
         if p == 'mtype':
             lookup = mode
-        elif mode != 'raw':
-            raise ValueError('addMatch: only the message type may be translated through _mtypes')
         pairs.append((p, key))
-    # id allocation, semantically: some name takes the value of self._id before self._id is incremented by one,
-    # the rule is stored in self._rules under that name and that name is returned (variable names are free)
-    idvar = None
-    incremented = stored = returned = False
-    for n in f.body:
-        if isinstance(n, ast.Assign) and len(n.targets) == 1 and isinstance(n.targets[0], ast.Name) \
-                and ast.unparse(n.value) == 'self._id' and not incremented:
-            idvar = n.targets[0].id
-        elif isinstance(n, ast.AugAssign) and ast.unparse(n.target) == 'self._id' and isinstance(n.op, ast.Add) \
-                and ast.unparse(n.value) == '1':
-            if incremented:
-                raise ValueError('addMatch: self._id incremented twice')
-            incremented = True
-        elif isinstance(n, ast.Assign) and len(n.targets) == 1 and isinstance(n.targets[0], ast.Subscript) \
-                and ast.unparse(n.targets[0].value) == 'self._rules':
-            stored = idvar is not None and ast.unparse(n.targets[0].slice) == idvar
-        elif isinstance(n, ast.Return):
-            returned = idvar is not None and n.value is not None and ast.unparse(n.value) == idvar
-    if not (idvar and incremented and stored and returned):
-        raise ValueError('addMatch: id allocation differs from the modelled one (id := self._id; self._id += 1; '
-                         'self._rules[id] = rule; return id)')
-    if lookup is None:
-        raise ValueError('addMatch: no `if mtype:` branch')
-    return canon_sorted(pairs, CANON_PARAMS, key=lambda x: x[0]), lookup
+    if not pairs:
+        raise ValueError('addMatch: no `if p: r.add(key, p)` chain')
+    return (canon_sorted(pairs, CANON_PARAMS, key=lambda x: x[0]), canon_sorted(found[0], CANON_SIMPLE), lookup)
 
 
-_escapes = None
-
-
-def _eval_expr(node, env):
-    return eval(compile(ast.Expression(body=node), '<c12-table>', 'eval'), {'__builtins__': {}}, dict(env))
-
-
-def client_text_keys(client):
-    """[(text key, variable written under it)] in canonical order; the item format and the separator are
-    checked by evaluating the source's own expressions on sample values."""
-    f = fn_ast(client.DBusClientConnection.addMatch)
-    pairs = []
-    inner = None
-    for node in ast.walk(f):
-        if isinstance(node, ast.FunctionDef) and node.name == 'add' and node is not f:
-            inner = node
-        if isinstance(node, ast.Call) and isinstance(node.func, ast.Name) and node.func.id == 'add' and len(node.args) == 2:
-            a, v = node.args
-            if isinstance(a, ast.Constant) and isinstance(a.value, str):
-                k = a.value
-            elif isinstance(a, ast.BinOp) and isinstance(a.left, ast.Constant) and isinstance(a.op, ast.Mod):
-                k = a.left.value
-            else:
-                raise ValueError('client.addMatch: unexpected key expression ' + ast.unparse(a))
-            pairs.append((k, ast.unparse(v)))
-    if inner is None:
-        raise ValueError('client.addMatch: local function add(k, v) not found')
-    # the item format: whatever expression is appended, it must produce k='v'
-    appended = [n.args[0] for n in ast.walk(inner)
-                if isinstance(n, ast.Call) and isinstance(n.func, ast.Attribute) and n.func.attr == 'append' and n.args]
-    kn, vn = [a.arg for a in inner.args.args][:2]
-    if len(appended) != 1 or _eval_expr(appended[0], {kn: 'K', vn: 'V'}) != "K='V'":
-        raise ValueError("client.addMatch: an item is not written as k='v'")
-    # escaping: the value may be rewritten before it is formatted; evaluate that expression on samples
-    rewrites = [n.value for n in ast.walk(inner)
-                if isinstance(n, ast.Assign) and len(n.targets) == 1 and ast.unparse(n.targets[0]) == vn]
-    global _escapes
-    if not rewrites:
-        _escapes = False
-    elif len(rewrites) == 1:
-        def rw(x):
-            return eval(compile(ast.Expression(body=rewrites[0]), '<c12-table>', 'eval'), {'__builtins__': {}, 'str': str}, {vn: x})
-        if rw("a'b'") == "a'\\''b'\\''" and rw('plain,=\\') == 'plain,=\\':
-            _escapes = True
-        elif rw("a'b") == "a'b":
-            _escapes = False
+def behaviour_of(pairs, simple):
+    """What a (param -> key, simple keys) reading means, in the probe's vocabulary."""
+    out = []
+    for p, k in pairs:
+        if k in simple:
+            out.append((p, k))
+        elif k in ('path_namespace', 'args', 'arg_paths'):
+            out.append((p, k))
         else:
-            raise ValueError("client.addMatch: the value is rewritten in an unsupported way: " + ast.unparse(rewrites[0]))
-    else:
-        raise ValueError('client.addMatch: the value is rewritten more than once')
-    guards = [ast.unparse(n.test) for n in ast.walk(inner) if isinstance(n, ast.If)]
-    if guards != ['%s is not None' % vn]:
-        raise ValueError('client.addMatch: add() is not guarded by `v is not None`: %r' % (guards,))
-    # the separator: the value assigned to `rule`, evaluated on a sample list
-    joined = [n.value for n in f.body if isinstance(n, ast.Assign) and ast.unparse(n.targets[0]) == 'rule']
-    lname = [ast.unparse(n.targets[0]) for n in f.body
-             if isinstance(n, ast.Assign) and isinstance(n.value, ast.List) and not n.value.elts]
-    if len(joined) != 1 or len(lname) != 1 or _eval_expr(joined[0], {lname[0]: ['A', 'B']}) != 'A,B':
-        raise ValueError('client.addMatch: the items are not joined by a comma')
-    return canon_sorted(pairs, CANON_TEXT, key=lambda x: x[0])
+            out.append((p, p))          # set as an attribute nobody reads: not evaluated
+    return out
 
 
-def bus_kwarg_keys(bus):
+def recognise_bus(bus):
     f = fn_ast(bus.Bus.dbus_AddMatch)
     for node in ast.walk(f):
         if isinstance(node, ast.Assign) and ast.unparse(node.targets[0]) == 'kwargs' and isinstance(node.value, ast.Dict):
@@ -226,58 +429,94 @@ def bus_kwarg_keys(bus):
     raise ValueError('dbus_AddMatch: kwargs literal not found')
 
 
-def notify_kwargs(objects):
-    """The keyword arguments of the addMatch call made by RemoteDBusObject.notifyOnSignal: [(keyword, source text)]."""
-    f = fn_ast(objects.RemoteDBusObject.notifyOnSignal)
-    calls = [n for n in ast.walk(f) if isinstance(n, ast.Call) and isinstance(n.func, ast.Attribute)
-             and n.func.attr == 'addMatch']
-    if len(calls) != 1 or len(calls[0].args) != 1:
-        raise ValueError('notifyOnSignal: expected one addMatch(callback, **kw) call')
-    return canon_sorted([(k.arg, ast.unparse(k.value)) for k in calls[0].keywords], CANON_PARAMS, key=lambda x: x[0])
+def recognise_client(client):
+    """Text keys in the literal `add('<key>', <var>)` calls of client.addMatch."""
+    f = fn_ast(client.DBusClientConnection.addMatch)
+    keys = []
+    for node in ast.walk(f):
+        if isinstance(node, ast.Call) and isinstance(node.func, ast.Name) and node.func.id == 'add' and len(node.args) == 2:
+            a = node.args[0]
+            if isinstance(a, ast.Constant) and isinstance(a.value, str):
+                keys.append(a.value)
+            elif isinstance(a, ast.BinOp) and isinstance(a.left, ast.Constant) and isinstance(a.op, ast.Mod):
+                keys.append(a.left.value)
+            else:
+                raise ValueError('client.addMatch: unexpected key expression ' + ast.unparse(a))
+    if not keys:
+        raise ValueError('client.addMatch: no add(key, value) calls')
+    return canon_sorted(keys, CANON_TEXT)
 
 
+def cross_check(what, recogniser, probed, project=lambda x: x):
+    """Run a recogniser; an unknown shape is an advisory, a different reading is an error."""
+    try:
+        seen = recogniser()
+    except ValueError as e:
+        ADVISORIES.append('%s: source shape not recognised (%s); table derived by probing the code' % (what, e))
+        return
+    except (OSError, TypeError) as e:
+        ADVISORIES.append('%s: source not available (%r); table derived by probing the code' % (what, e))
+        return
+    if project(seen) != probed:
+        raise ValueError('%s: the source reads as %r but the code behaves as %r' % (what, project(seen), probed))
+
+
+# ----------------------------------------------------------------------------------------------- emit
 def emit(repo):
-    from txdbus import router, client, bus, objects
-    mt = router._mtypes
-    if not isinstance(mt, dict) or not all(isinstance(k, str) and isinstance(v, int) and not isinstance(v, bool) and v >= 0
-                                           for k, v in mt.items()):
-        raise ValueError('router._mtypes is not a dict str -> non-negative int')
-    sk = simple_keys(router)
-    pairs, lookup = add_keys(router)
-    ck = client_text_keys(client)
-    bk = bus_kwarg_keys(bus)
-    nk = notify_kwargs(objects)
+    del ADVISORIES[:]
+    from txdbus import router, client, bus, objects, interface
+    pairs, simple, lookup, mtypes = probe_router(router)
+    probe_ids(router)
+    ck, esc = probe_client(client)
+    bk = probe_bus(bus, router)
+    nk = probe_notify(objects, interface)
+
+    def typed(prs, lk):
+        # the translation mode only means something when a parameter is compared with the message type
+        return (prs, lk if any(k == '_messageType' for _, k in prs) else None)
+    cross_check('router.Rule.add / MessageRouter.addMatch', lambda: recognise_router(router), typed(pairs, lookup),
+                project=lambda r: typed(behaviour_of(r[0], r[1]), r[2]))
+    mt = getattr(router, '_mtypes', None)
+    if isinstance(mt, dict):
+        if sorted(mt.items(), key=lambda kv: (kv[1], kv[0])) != mtypes:
+            raise ValueError('router._mtypes is %r but type constraints behave as %r' % (mt, mtypes))
+    else:
+        ADVISORIES.append('router._mtypes not found; the table of type names was derived by probing type constraints')
+    cross_check('bus.Bus.dbus_AddMatch kwargs', lambda: recognise_bus(bus), bk)
+    cross_check('client.DBusClientConnection.addMatch text keys', lambda: recognise_client(client), [k for k, _ in ck])
+
     L = []
-    L.append('/-! GENERATED by tools/tables/c12_route.py from txdbus/router.py, client.py, bus.py - do not edit. -/')
+    L.append('/-! GENERATED by tools/tables/c12_route.py from txdbus/router.py, client.py, bus.py, objects.py - do not edit. -/')
     L.append('namespace Txdbus.Gen.Route')
     L.append('')
-    L.append('/-- `router._mtypes`, sorted by code. -/')
+    L.append('/-- type name -> the code a `type` constraint is compared with (`router._mtypes`), sorted by code. -/')
     L.append('def mtypes : List (List Char × Nat) :=')
-    L.append('  ' + llist('(%s, %d)' % (lstr(k), v) for k, v in sorted(mt.items(), key=lambda kv: (kv[1], kv[0]))))
+    L.append('  ' + llist('(%s, %d)' % (lstr(k), v) for k, v in mtypes))
     L.append('')
-    L.append('/-- the tuple of `Rule.add`: keys compared with `getattr(m, key) != value`. -/')
+    L.append('/-- message attributes that some parameter of `MessageRouter.addMatch` is compared with (`Rule.add`). -/')
     L.append('def simpleKeys : List (List Char) :=')
-    L.append('  ' + llist(lstr(k) for k in sk))
+    L.append('  ' + llist(lstr(k) for k in simple))
     L.append('')
-    L.append('/-- `MessageRouter.addMatch`: (parameter, key handed to `Rule.add`) canonical order (the order of the `if` chain is not observable). -/')
+    L.append('/-- `MessageRouter.addMatch`: (parameter, what it is evaluated as): a message attribute, `path_namespace`,')
+    L.append('`args`, `arg_paths`, or its own name when it is not evaluated.  Canonical order. -/')
     L.append('def addKeys : List (List Char × List Char) :=')
     L.append('  ' + llist('(%s, %s)' % (lstr(p), lstr(k)) for p, k in pairs))
     L.append('')
-    L.append('/-- `true`: the type constraint is stored as `_mtypes.get(mtype, mtype)`; `false`: as given. -/')
-    L.append('def mtypeLookup : Bool := %s' % ('true' if lookup == 'get' else 'false'))
+    L.append('/-- `true`: the type constraint is compared through the table of type names; `false`: as given. -/')
+    L.append('def mtypeLookup : Bool := %s' % ('true' if lookup else 'false'))
     L.append('')
     L.append("/-- `true`: `DBusClientConnection.addMatch` writes an apostrophe inside a value as '\\'' (DBus quoting rule). -/")
-    L.append('def clientEscapes : Bool := %s' % ('true' if _escapes else 'false'))
+    L.append('def clientEscapes : Bool := %s' % ('true' if esc else 'false'))
     L.append('')
-    L.append('/-- `DBusClientConnection.addMatch`: (key of the rule text, variable written under it), canonical order. -/')
+    L.append('/-- `DBusClientConnection.addMatch`: (key of the rule text, parameter written under it), canonical order. -/')
     L.append('def clientTextKeys : List (List Char × List Char) :=')
     L.append('  ' + llist('(%s, %s)' % (lstr(k), lstr(v)) for k, v in ck))
     L.append('')
-    L.append('/-- keyword arguments of the `addMatch` call in `RemoteDBusObject.notifyOnSignal`: (keyword, source text). -/')
+    L.append('/-- what `RemoteDBusObject.notifyOnSignal` passes to `addMatch`: (keyword, role of the value). -/')
     L.append('def notifyKwargs : List (List Char × List Char) :=')
     L.append('  ' + llist('(%s, %s)' % (lstr(k), lstr(v)) for k, v in nk))
     L.append('')
-    L.append('/-- keys of the `kwargs` literal of `Bus.dbus_AddMatch`. -/')
+    L.append('/-- rule-text keys that `Bus.dbus_AddMatch` hands to the router under their own name. -/')
     L.append('def busKwargKeys : List (List Char) :=')
     L.append('  ' + llist(lstr(k) for k in bk))
     L.append('')
